@@ -22,6 +22,9 @@ CHECKS = {
  "C10": ("model_checking", "TLC model checking of Clone/CloneFrom on the store model + TLC trace validation",
          "2-world MCWorld instance: Clone and CloneFrom preserve StoreInv and represent the source's map; on real Worlds content, resources, token freshness (deep copy), equality, frame conditions on every other world after every later event, and lock-step twins.",
          "Bounded.", "6 C10"),
+ "C11": ("exploration", "mutated encodings deserialized by the real code inside world histories; outcome and all later behaviour validated by TLC (TraceWorld)",
+         "Encodings of reachable worlds in three formats are mutated (every numeric field incl. declared lengths, identifier bytes, entity index/generation, free-list entries, values; token deletion/duplication/swap; field renames; element deletion/duplication) and fed to Deserialize. TLC requires an error, or a world that satisfies StoreInv, the identifier probes, the value ledger (no double drop) and the allocator protocol at once and under the random operations that follow on that world in the same history. The content of an accepted world is not compared with a specification-side decoding of the mutated input (no Serde.tla yet); leaks of a failed attempt are reported as INFO only.",
+         "Mutations are single-site; declared lengths stay within the input size.", "6 C11"),
  "C13": ("model_checking", "TLC model checking of StoreInv + StoreInv evaluated by TLC on the real store dump after every event",
          "StoreInv (free list = inactive slots without duplicates, slot<->row bijection, lengths, one table per component set, lookup tables consistent) is an invariant of the bounded model and is evaluated on the hook's dump of every live world after every event of every trace.",
          "The dump hook reads the private fields faithfully.", "6 C13"),
@@ -63,7 +66,7 @@ def main():
             "add_only": True,
         },
         "engines": [
-            {"name": "world", "path": "tools/pipe_world.py", "serves_properties": ["C01", "C02", "C03", "C04", "C05", "C06", "C09", "C10", "C13", "C15", "C16"],
+            {"name": "world", "path": "tools/pipe_world.py", "serves_properties": ["C01", "C02", "C03", "C04", "C05", "C06", "C09", "C11", "C10", "C13", "C15", "C16"],
              "kind_free_text": "spec/WorldStore.tla + MCWorld.tla model-checked by TLC; harness/worlddrv executes histories on real Worlds; spec/TraceWorld.tla validates every event"},
             {"name": "fault", "path": "tools/pipe_fault.py", "serves_properties": ["C17"],
              "kind_free_text": "harness/faultdrv enumerates (operation, call-back kind, position) and injects one panic each; spec/TracePanic.tla validates the ledger and allocator trace"},
